@@ -99,6 +99,7 @@ fn run(law: Law, attempts: u32) {
     let step = any_duration();
     let max = any_max();
     let mut it = build(law, step, max, attempts).into_iter();
+    let (mut saw_sat, mut saw_clamp, mut saw_plain) = (false, false, false);
     let mut i: u32 = 1;
     while i <= attempts {
         let n = it.next();
@@ -118,13 +119,18 @@ fn run(law: Law, attempts: u32) {
         if let Some(m) = max {
             assert!(n.duration <= m, "never exceeds the configured maximum");
         }
-        kani::cover!(unclamped == Duration::MAX && step < Duration::MAX, "saturated");
-        kani::cover!(max.is_some() && want < unclamped, "clamped by max");
-        kani::cover!(want == unclamped && unclamped < Duration::MAX && unclamped > step, "plain law value above step");
+        saw_sat |= unclamped == Duration::MAX && step < Duration::MAX;
+        saw_clamp |= max.is_some() && want < unclamped;
+        saw_plain |= want == unclamped && unclamped < Duration::MAX && unclamped > step;
         i += 1;
     }
     assert!(it.next().is_none(), "schedule yields exactly max_attempts items");
     assert!(it.next().is_none(), "and stays exhausted");
+    // vacuity witnesses (trivially satisfied where the situation cannot arise)
+    let grows = !matches!(law, Law::Constant) && attempts >= 2;
+    kani::cover!(!grows || saw_sat, "an overflowing delay saturated");
+    kani::cover!(attempts == 0 || saw_clamp, "a delay was clamped by max");
+    kani::cover!(!grows || saw_plain, "a plain law value above step was produced");
 }
 
 macro_rules! harness {
@@ -144,22 +150,149 @@ harness!(c13_linear_a0, Law::Linear, 0, 2);
 harness!(c13_linear_a1, Law::Linear, 1, 3);
 harness!(c13_linear_a3, Law::Linear, 3, 5);
 harness!(c13_linear_a6, Law::Linear, 6, 8);
-// exponential: concrete factor per harness (a symbolic factor makes the f64 product
-// symbolic x symbolic: 818 s to find the pre-fix counterexample), symbolic step and max
-harness!(c13_exp_f0_a3, Law::Exponential(0), 3, 5);
-harness!(c13_exp_f1_a3, Law::Exponential(1), 3, 5);
-harness!(c13_exp_f2_a3, Law::Exponential(2), 3, 5);
-harness!(c13_exp_f3_a4, Law::Exponential(3), 4, 6);
-harness!(c13_exp_f10_a3, Law::Exponential(10), 3, 5);
-harness!(c13_exp_fmax_a3, Law::Exponential(u64::MAX), 3, 5);
-harness!(c13_exp_f4294967296_a3, Law::Exponential(1 << 32), 3, 5);
+// ---------------------------------------------------------------- exponential law
+// Comparing the implementation's f64 product against a second copy of the same f64
+// computation is an equivalence of two bit-blasted float circuits: with a symbolic step
+// CBMC did not finish a single attempt in 50 min (even for factor 0), while one copy alone
+// takes 2 s. The exponential law is therefore decided in two parts:
+//  (A) symbolic step and max, concrete factor: everything that does not need a second
+//      float computation - count, numbering, clamp, panic-freedom, saturation once
+//      factor^(i-1) leaves u64, factor 0 gives zero delays from attempt 2, delays never
+//      decrease for factor >= 1 (f64 multiplication and the conversion are monotone);
+//  (B) the law itself against the reference, with the step drawn from a menu of
+//      concrete values (the floats are then constant-folded) and max symbolic.
+fn pow_fits(f: u64, e: u32) -> bool {
+    let mut p: Option<u64> = Some(1);
+    let mut k = 0;
+    while k < e {
+        p = match p {
+            Some(v) => v.checked_mul(f),
+            None => None,
+        };
+        k += 1;
+    }
+    p.is_some()
+}
+
+fn run_exp_structural(f: u64, attempts: u32) {
+    let step = any_duration();
+    let max = any_max();
+    let mut it = build(Law::Exponential(f), step, max, attempts).into_iter();
+    let mut prev: Option<Duration> = None;
+    let mut saw_overflow = false;
+    let mut i: u32 = 1;
+    while i <= attempts {
+        let n = it.next();
+        assert!(n.is_some(), "schedule ended early");
+        let n = n.unwrap();
+        assert!(n.attempt_num == i, "attempts are numbered from 1");
+        assert!(n.max_attempts == attempts);
+        if let Some(m) = max {
+            assert!(n.duration <= m, "never exceeds the configured maximum");
+        }
+        if !pow_fits(f, i - 1) {
+            // the true product is >= step * 2^64: saturates (at max when set) unless step == 0
+            let sat = if step == Duration::ZERO { Duration::ZERO } else { Duration::MAX };
+            let want = match max {
+                Some(m) if m < sat => m,
+                _ => sat,
+            };
+            assert!(n.duration == want, "overflowing delay saturates");
+            saw_overflow |= step > Duration::ZERO;
+        }
+        if f == 0 && i >= 2 {
+            assert!(n.duration == Duration::ZERO, "factor 0: zero delay from the second attempt");
+        }
+        if i == 1 && step.subsec_nanos() == 0 && step.as_secs() < (1 << 53) {
+            // step * f^0 with an exactly representable step
+            let want = match max {
+                Some(m) if m < step => m,
+                _ => step,
+            };
+            assert!(n.duration == want, "first attempt waits exactly one step");
+        }
+        if f >= 1 {
+            if let Some(p) = prev {
+                assert!(n.duration >= p, "delays never decrease for factor >= 1");
+            }
+        }
+        prev = Some(n.duration);
+        i += 1;
+    }
+    assert!(it.next().is_none(), "schedule yields exactly max_attempts items");
+    assert!(it.next().is_none(), "and stays exhausted");
+    kani::cover!(pow_fits(f, attempts.saturating_sub(1)) || saw_overflow, "power left u64 with a non-zero step");
+}
+
+const STEP_MENU: [(u64, u32); 8] = [
+    (0, 0),
+    (0, 1),
+    (0, 999_999_999),
+    (1, 0),
+    (2, 500_000_000),
+    (3600, 0),
+    (1 << 40, 7),
+    (u64::MAX, 999_999_999),
+];
+
+fn run_exp_law_menu(f: u64, attempts: u32) {
+    let which: usize = kani::any();
+    kani::assume(which < STEP_MENU.len());
+    let step = Duration::new(STEP_MENU[which].0, STEP_MENU[which].1);
+    let max = any_max();
+    let mut it = build(Law::Exponential(f), step, max, attempts).into_iter();
+    let (mut saw_sat, mut saw_clamp, mut saw_plain) = (false, false, false);
+    let mut i: u32 = 1;
+    while i <= attempts {
+        let n = it.next().unwrap();
+        let unclamped = ref_exponential(step, f, i);
+        let want = match max {
+            Some(m) if m < unclamped => m,
+            _ => unclamped,
+        };
+        assert!(n.duration == want, "delay follows the exponential law (saturating, clamped)");
+        saw_sat |= unclamped == Duration::MAX && step < Duration::MAX;
+        saw_clamp |= max.is_some() && want < unclamped;
+        saw_plain |= want == unclamped && unclamped < Duration::MAX && unclamped > step;
+        i += 1;
+    }
+    assert!(it.next().is_none());
+    kani::cover!(f < 2 || saw_sat, "an overflowing delay saturated");
+    kani::cover!(saw_clamp, "a delay was clamped by max");
+    kani::cover!(f < 2 || saw_plain, "a plain law value above step was produced");
+}
+
+macro_rules! exp_harness {
+    ($name:ident, $fun:ident, $f:expr, $a:expr, $unwind:expr) => {
+        #[kani::proof]
+        #[kani::unwind($unwind)]
+        fn $name() {
+            $fun($f, $a);
+        }
+    };
+}
+
+exp_harness!(c13_expA_f0_a3, run_exp_structural, 0, 3, 5);
+exp_harness!(c13_expA_f1_a3, run_exp_structural, 1, 3, 5);
+exp_harness!(c13_expA_f2_a3, run_exp_structural, 2, 3, 5);
+exp_harness!(c13_expA_f10_a4, run_exp_structural, 10, 4, 6);
+exp_harness!(c13_expA_f2p32_a3, run_exp_structural, 1 << 32, 3, 5);
+exp_harness!(c13_expA_fmax_a3, run_exp_structural, u64::MAX, 3, 5);
 // the power itself leaves u64 inside the schedule: 2^64 at attempt 65, 10^20 at attempt 21
-harness!(c13_exp_f2_a66, Law::Exponential(2), 66, 68);
-harness!(c13_exp_f10_a21, Law::Exponential(10), 21, 23);
+exp_harness!(c13_expA_f2_a66, run_exp_structural, 2, 66, 68);
+exp_harness!(c13_expA_f10_a21, run_exp_structural, 10, 21, 23);
 
 #[kani::proof]
 #[kani::unwind(4)]
-fn c13_exp_symbolic_factor_a2() {
+fn c13_expA_symbolic_factor_a2() {
     let f: u64 = kani::any();
-    run(Law::Exponential(f), 2);
+    run_exp_structural(f, 2);
 }
+
+exp_harness!(c13_expB_f0_a3, run_exp_law_menu, 0, 3, 5);
+exp_harness!(c13_expB_f1_a3, run_exp_law_menu, 1, 3, 5);
+exp_harness!(c13_expB_f2_a4, run_exp_law_menu, 2, 4, 6);
+exp_harness!(c13_expB_f3_a5, run_exp_law_menu, 3, 5, 7);
+exp_harness!(c13_expB_f10_a21, run_exp_law_menu, 10, 21, 23);
+exp_harness!(c13_expB_f2_a66, run_exp_law_menu, 2, 66, 68);
+exp_harness!(c13_expB_fmax_a3, run_exp_law_menu, u64::MAX, 3, 5);
